@@ -34,7 +34,7 @@ func wholeMachineDesc(rule string, faults []string) api.Description {
 // C01 returns the check of property C01.
 func C01() api.Check {
 	return &check{
-		id: "C01", quick: 8000, thorough: 400000,
+		id: "C01", quick: 20000, thorough: 400000,
 		variants: allVariants,
 		gen: func(seed uint64, idx int, tier string) item {
 			if idx%3 == 2 {
@@ -51,7 +51,7 @@ func C01() api.Check {
 // C07 returns the check of property C07 (bounded liveness, no panic, errors as values).
 func C07() api.Check {
 	return &check{
-		id: "C07", quick: 8000, thorough: 400000,
+		id: "C07", quick: 16000, thorough: 400000,
 		variants: allVariants,
 		gen: func(seed uint64, idx int, tier string) item {
 			c := gen.HangProne(seed)
@@ -97,7 +97,7 @@ var _ = rng.New
 // C04 returns the check of property C04 (register dependences).
 func C04() api.Check {
 	return &check{
-		id: "C04", quick: 10000, thorough: 500000,
+		id: "C04", quick: 20000, thorough: 500000,
 		variants: pipelined,
 		gen: func(seed uint64, idx int, tier string) item {
 			c := gen.RegPressure(seed)
@@ -157,7 +157,7 @@ func C03() api.Check {
 		[]string{"pipeline flush at an enumerated point", "wrong-path register write / store / load / wild load / jal / jalr / div by zero / undefined label", "map-order permutation"})
 	d.Level = "fault_enumeration"
 	return &check{
-		id: "C03", quick: 8000, thorough: 400000,
+		id: "C03", quick: 20000, thorough: 400000,
 		variants: pipelined, perCase: 5,
 		gen: func(seed uint64, idx int, tier string) item {
 			c, shadows := gen.ShadowSites(seed, siteOf(idx, gen.ShadowKinds))
@@ -178,7 +178,7 @@ func C09() api.Check {
 		[]string{"program end with a load / store / dependent chain in flight", "map-order permutation"})
 	d.Level = "fault_enumeration"
 	return &check{
-		id: "C09", quick: 8000, thorough: 400000,
+		id: "C09", quick: 20000, thorough: 400000,
 		variants: pipelined, perCase: 5,
 		gen: func(seed uint64, idx int, tier string) item {
 			s := siteOf(idx, gen.TailKinds)
